@@ -59,6 +59,7 @@ type echoCfg struct {
 	pHoldIter         int  // percent of callers that read their row only a little later (other answers arrive meanwhile)
 	pWrongVersion     int  // percent of answers whose header carries another protocol version (same header layout) than the connection's
 	lateUndecodable   bool // late answers carry the compression flag although no compression was negotiated (the frame cannot be decoded)
+	splitGapX         int  // the gap inside a split answer, in driver timeouts (0: one and a half)
 	pSplit            int  // percent of answers that arrive in two pieces with a gap of 1.5 x the driver's timeout inside the body
 	seed              int64
 }
@@ -262,7 +263,11 @@ func (en *echoNode) answer(sc *fakenode.ServerConn, req *fakenode.Req, token str
 		hs := cqlref.HeaderSize(sc.Version)
 		cut := hs + 1 + int(h32(token, 12))%(len(f)-hs-1)
 		atomic.AddInt64(&en.splits, 1)
-		err = sc.WriteReplySplit(req, f, cut, en.cfg.timeout+en.cfg.timeout/2)
+		gap := en.cfg.timeout + en.cfg.timeout/2
+		if en.cfg.splitGapX > 0 {
+			gap = time.Duration(en.cfg.splitGapX) * en.cfg.timeout
+		}
+		err = sc.WriteReplySplit(req, f, cut, gap)
 		if late && err == nil {
 			atomic.AddInt64(&en.lateDelivered, 1)
 		}
